@@ -1056,25 +1056,6 @@ func c02CheckCase(text string, truth any, dom bool) map[string]any {
 	return out
 }
 
-// message "transaction does not balance: A off by 1; B off by 2" → sorted [[hex A, hex "1"], …]
-func parseBalanceMessage(msg string) [][]string {
-	const pre = "transaction does not balance: "
-	parts := [][]string{}
-	if !strings.HasPrefix(msg, pre) {
-		return parts
-	}
-	for _, seg := range strings.Split(msg[len(pre):], "; ") {
-		i := strings.LastIndex(seg, " off by ")
-		if i < 0 {
-			parts = append(parts, []string{hx(seg), ""})
-			continue
-		}
-		parts = append(parts, []string{hx(seg[:i]), hx(seg[i+len(" off by "):])})
-	}
-	sort.Slice(parts, func(a, b int) bool { return parts[a][0] < parts[b][0] })
-	return parts
-}
-
 // c02DiagCase: real Parse + Analyze; the balance diagnostics in order, keyed by the line of
 // the transaction they are attached to.
 func c02DiagCase(text string, truth any, dom bool) map[string]any {
@@ -1094,9 +1075,9 @@ func c02DiagCase(text string, truth any, dom bool) map[string]any {
 		for _, d := range res.Diagnostics {
 			switch d.Code {
 			case "UNBALANCED":
-				impl = append(impl, J{"code": d.Code, "line": d.Range.Start.Line, "sev": int(d.Severity), "parts": parseBalanceMessage(d.Message)})
+				impl = append(impl, J{"code": d.Code, "line": d.Range.Start.Line, "sev": int(d.Severity), "msg": hx(d.Message)})
 			case "MULTIPLE_INFERRED":
-				impl = append(impl, J{"code": d.Code, "line": d.Range.Start.Line, "sev": int(d.Severity), "parts": [][]string{}, "msg": hx(d.Message)})
+				impl = append(impl, J{"code": d.Code, "line": d.Range.Start.Line, "sev": int(d.Severity), "msg": hx(d.Message)})
 			}
 		}
 	}()
